@@ -28,7 +28,7 @@ def tasks(ctx):
           # the request conditions are phrased over the frame position: the only other writers of the position (and of the
           # first-line flag that shortens a line) are the LCD switch functions, which must keep the timing invariant and do
           # nothing when bit 7 does not change
-          pc.ppu_task("enable", ["0", "inv"]), pc.ppu_task("disable", ["0", "inv"]), pc.ppu_task("WriteLCDC", ["on", "off", "same", "inv"]),
+          pc.ppu_task("enable", ["0", "inv"]), pc.ppu_task("disable", ["0", "inv"]), pc.ppu_task("WriteLCDC", ["on", "off", "same", "inv"]), pc.ppu_task("WriteLY", []),
           scan_lemma("scan:only-EndMachineCycle-requests-lcd-interrupts", request_callers, ["ppu (package scan)"])]
     return filter_tasks(ts)
 
